@@ -716,6 +716,15 @@ def build_case(program, env, runner_factory=None, default_result=None):
         Prog.test = unittest.skip(reason)(Prog.test)
     elif decor == "stdlib_expectedFailure":
         Prog.test = unittest.expectedFailure(Prog.test)
+    if program.get("synthetic_module"):
+        # a test class that lives in a module without a __file__ (built by exec, a REPL, a frozen / zipped application)
+        import sys
+        import types
+        if program["synthetic_module"] == "nofile":
+            sys.modules.setdefault("tvm_nofile_module", types.ModuleType("tvm_nofile_module"))
+            Prog.__module__ = "tvm_nofile_module"
+        else:
+            Prog.__module__ = "tvm_module_that_was_never_imported"
     case = Prog("test")
     if program.get("force_attr") == "instance":
         case.force_failure = True
